@@ -79,6 +79,14 @@ Theorem simplify_func_is_prefix : forall f, has_prefix (simplify_func f) (trim_p
 Proof. exact simplify_func_prefix. Qed.
 Print Assumptions simplify_func_is_prefix.
 
+(* the executable rule cut_root used in spec_prune is exactly the relational reading of the statement:
+   the result is the prefix (from the root) before the FIRST position k such that frame k matches and
+   some earlier frame does not; without such a position nothing is removed *)
+Theorem cut_root_is_drop_rule : forall (m : frame -> bool) (fs : list frame),
+  drop_rule m fs (cut_root m false fs).
+Proof. intros m fs. exact (cut_root_drop_rule m fs). Qed.
+Print Assumptions cut_root_is_drop_rule.
+
 (* ---------------------------------------------------------------- witnesses *)
 Definition Meq (rx s : string) : bool := String.eqb rx s.
 Definition mkf (id : Z) (n : string) : function :=
